@@ -86,7 +86,8 @@ func mathCosh(L *LState) int {
 }
 
 func mathDeg(L *LState) int {
-	L.Push(LNumber(float64(L.CheckNumber(1)) * 180 / math.Pi))
+	// x / (pi/180) as lmathlib.c does: x*180 would overflow for huge x
+	L.Push(LNumber(float64(L.CheckNumber(1)) / (math.Pi / 180)))
 	return 1
 }
 
@@ -179,7 +180,8 @@ func mathPow(L *LState) int {
 }
 
 func mathRad(L *LState) int {
-	L.Push(LNumber(float64(L.CheckNumber(1)) * math.Pi / 180))
+	// x * (pi/180) as lmathlib.c does: x*pi would overflow for huge x
+	L.Push(LNumber(float64(L.CheckNumber(1)) * (math.Pi / 180)))
 	return 1
 }
 
